@@ -3496,6 +3496,10 @@ var StringValueParsers = func() map[string]TypedStringValueParser {
 		{
 			ReceiverType: sema.UIntType,
 			Parser: bigIntValueParser(func(b *big.Int) (Value, bool) {
+				// UInt has no upper bound, but must not be negative
+				if b.Sign() < 0 {
+					return nil, false
+				}
 				return NewUnmeteredUIntValueFromBigInt(b), true
 			}),
 		},
